@@ -56,6 +56,14 @@ def _is_minus_one(n):
     return isinstance(n, ast.UnaryOp) and isinstance(n.op, ast.USub) and _const_int(n.operand) == 1
 
 
+def _all_points(idx, pardim):
+    """`[:, ..., :, c]` (one full slice per point axis; `tensor=True` grid) or `[..., c]`."""
+    if len(idx) == 2 and isinstance(idx[0], ast.Constant) and idx[0].value is Ellipsis:
+        return True
+    return (len(idx) == pardim + 1
+            and all(isinstance(s, ast.Slice) and s.lower is None and s.upper is None and s.step is None for s in idx[:-1]))
+
+
 def _names_in(n):
     """Free names of an expression (comprehension targets are local to the comprehension)."""
     if isinstance(n, (ast.ListComp, ast.SetComp, ast.GeneratorExp, ast.DictComp)):
@@ -128,6 +136,7 @@ class _Fn:
         self.norm = []
         self.guard = None
         self.above_normalised = False
+        self.above_scalar = None      # `above = ensure_listlike(above, pardim)[k]` was executed (after the guard)
         self.result_init = False
         self.returned = False
         self.env = {}                 # name -> ('jet', key) | ('blist', dir, side) | ('expr', leanstr)
@@ -140,6 +149,8 @@ class _Fn:
         if node is None:
             return ('default',)
         if _is_name(node, 'above'):
+            if self.above_scalar is not None:
+                return ('normIdx', self.above_scalar)
             return ('raw',)
         if isinstance(node, ast.Constant) and node.value is True:
             return ('default',)
@@ -222,9 +233,7 @@ class _Fn:
             v = self.env.get(n.value.id)
             if v is not None and v[0] == 'jet':
                 idx = n.slice.elts if isinstance(n.slice, ast.Tuple) else [n.slice]
-                want = self.pardim + 1
-                if len(idx) != want or not all(isinstance(s, ast.Slice) and s.lower is None and s.upper is None and s.step is None
-                                              for s in idx[:-1]):
+                if not _all_points(idx, self.pardim):
                     _fail(n, 'unsupported indexing of a jet array')
                 last = idx[-1]
                 if _is_minus_one(last):
@@ -252,6 +261,24 @@ class _Fn:
 
     def assign_name(self, st, name, rhs, path, in_loop):
         top = not path and not in_loop
+        # derivs = tuple(<ensure_listlike(d, self.pardim) | d>)   /   list(...)
+        wrap = None
+        if (isinstance(rhs, ast.Call) and isinstance(rhs.func, ast.Name) and rhs.func.id in ('tuple', 'list')
+                and len(rhs.args) == 1 and not rhs.keywords):
+            inner = rhs.args[0]
+            is_ell = (isinstance(inner, ast.Call) and _is_name(inner.func, 'ensure_listlike') and inner.args
+                      and _is_name(inner.args[0], self.dvar))
+            if is_ell or _is_name(inner, self.dvar):
+                wrap = 'toTuple' if rhs.func.id == 'tuple' else 'toList'
+                if not top or self.guard is not None:
+                    _fail(st, 're-normalisation of d after the guard')
+                if _is_name(inner, self.dvar):
+                    self.norm.append((wrap,))
+                    if name != self.dvar:
+                        self.dead_dnames.add(self.dvar)
+                        self.dvar = name
+                    return
+                rhs = inner
         # derivs = ensure_listlike(d, self.pardim)
         if (isinstance(rhs, ast.Call) and _is_name(rhs.func, 'ensure_listlike') and not rhs.keywords
                 and rhs.args and _is_name(rhs.args[0], self.dvar)):
@@ -268,6 +295,8 @@ class _Fn:
             elif len(rhs.args) != 1:
                 _fail(st, 'unsupported ensure_listlike call')
             self.norm.append(('ensureListlike', dups))
+            if wrap:
+                self.norm.append((wrap,))
             if name != self.dvar:
                 self.dead_dnames.add(self.dvar)
                 self.dvar = name
@@ -276,10 +305,22 @@ class _Fn:
             _fail(st, 'unsupported assignment to `%s`' % name)
         # above = ensure_listlike(above, self.pardim)
         if name == 'above':
-            if (top and isinstance(rhs, ast.Call) and _is_name(rhs.func, 'ensure_listlike') and len(rhs.args) == 2
-                    and _is_name(rhs.args[0], 'above') and _is_self_attr(rhs.args[1], 'pardim') and not self.sides):
-                self.above_normalised = True
-                return
+            def is_norm(call):
+                if not (isinstance(call, ast.Call) and _is_name(call.func, 'ensure_listlike') and not call.keywords
+                        and call.args and _is_name(call.args[0], 'above')):
+                    return False
+                if len(call.args) == 1:
+                    return self.pardim == 1
+                return len(call.args) == 2 and (_is_self_attr(call.args[1], 'pardim') or _const_int(call.args[1]) == self.pardim)
+            if top and not self.sides and self.guard is not None and not self.above_normalised and self.above_scalar is None:
+                if is_norm(rhs):
+                    self.above_normalised = True
+                    return
+                # above = ensure_listlike(above)[0]   (curves: the one direction's side as a bool)
+                if (isinstance(rhs, ast.Subscript) and is_norm(rhs.value) and _const_int(rhs.slice) is not None
+                        and 0 <= _const_int(rhs.slice) < self.pardim):
+                    self.above_scalar = _const_int(rhs.slice)
+                    return
             _fail(st, 'unsupported assignment to `above`')
         # u = ensure_listlike(u)
         if name in self.params:
@@ -399,8 +440,7 @@ class _Fn:
                     continue
                 if isinstance(t, ast.Subscript) and _is_name(t.value, 'result'):
                     idx = t.slice.elts if isinstance(t.slice, ast.Tuple) else [t.slice]
-                    if not (in_loop and self.result_init and self.guard is not None and len(idx) == self.pardim + 1
-                            and all(isinstance(s, ast.Slice) and s.lower is None and s.upper is None and s.step is None for s in idx[:-1])
+                    if not (in_loop and self.result_init and self.guard is not None and _all_points(idx, self.pardim)
                             and _is_name(idx[-1], self.loopvar)):
                         _fail(st, 'unsupported store into `result`')
                     self.check_no_dead(st.value)
@@ -541,7 +581,7 @@ CLASS_OF = {'C03_dispatch_surface_sound_list': K_LIST, 'C03_dispatch_surface_sou
 def _lean_table(t):
     if t is None:   # fail closed: a table that is sound for nothing (everything falls through to zeros)
         return '{ pardim := 0, norm := [], genericGuard := .not .tt, branches := [], jetSides := [(0, none, .rawIdx 0)] }'
-    norm = ', '.join('.indexZeroUnlessSingleton' if n[0] == 'indexZeroUnlessSingleton' else '.ensureListlike %d' % n[1] for n in t['norm'])
+    norm = ', '.join('.ensureListlike %d' % n[1] if n[0] == 'ensureListlike' else '.' + n[0] for n in t['norm'])
     br = ',\n      '.join('(%s, [%s])' % (lean_cond(_path_cond(b['path'])), ', '.join(map(str, b['label']))) for b in t['branches'])
     sides = ', '.join('(%d, %s, %s)' % (d, 'none' if o is None else 'some %d' % o, lean_side(s)) for d, o, s in t['sides'])
     return ('{ pardim := %d,\n    norm := [%s],\n    genericGuard := %s,\n    branches := [\n      %s],\n    jetSides := [%s] }'
